@@ -171,12 +171,14 @@ def rule_provenance(ctx, rid):
     n1 = 0
     markers = set()
     for e in exits:
+        # the assignment vector is the loop-filled array the returned index vectors are read from (found by role)
+        finals = {t[1].split('@')[0] for t in subterms(e.value) if t[0] == 's' and '@F' in t[1]}
         for ls in e.state.loops:
             if ls.kind != 'for':
                 continue
             for kind, b in ls.body_states:
                 for eff in b.effects:
-                    if eff[0] == 'setitem' and eff[5] == 'final' and eff[2] == ls.var:
+                    if eff[0] == 'setitem' and eff[5] in finals and eff[2] == ls.var:
                         n1 += 1
                         val = eff[3]
                         if is_c(val) and isinstance(val[1], int) and not isinstance(val[1], bool) and val[1] < 0:
@@ -317,8 +319,8 @@ def rule_one_claimant(ctx, rid):
 
 
 def _claimants(idx, col):
-    from .common import unzip_comp, flatten_comp
-    idx = unzip_comp(flatten_comp(idx))
+    from .common import unzip_comp, flatten_comp, fold_comp_index
+    idx = fold_comp_index(unzip_comp(flatten_comp(idx)))
     if idx[0] == 'comp' and len(idx[3]) == 1 and not idx[3][0][2]:
         elt = idx[2]
         if elt[0] == 'sub':
@@ -463,8 +465,7 @@ def rule_admissible(ctx, rid):
             else:
                 # the loop that fills the assignment vector
                 for name, head in ls.head_env.items():
-                    if head[0] == 's' and '@F' in head[1] and name == 'final' or \
-                            any(eff[0] == 'setitem' and eff[5] == name and eff[2] == ls.var for kind, b in ls.body_states
+                    if any(eff[0] == 'setitem' and eff[5] == name and eff[2] == ls.var for kind, b in ls.body_states
                                 for eff in b.effects):
                         alloc = ls.entry_env.get(name)
                         if alloc is None:
